@@ -220,6 +220,13 @@ func main() {
 			stamp(J{"ev": "ret", "g": 0, "k": 100 + probes, "res": ev["res"]})
 			probes++
 		}
+		// how many instances of locations the System has made (loaded) so far: under TTL forever, one per location
+		newlocs := -1
+		if w.Sys != nil {
+			if st, err := w.Sys.GetStats(core.NewContext("verif")); err == nil {
+				newlocs = int(st.NewLocations)
+			}
+		}
 		// final state: what every location returns for every id storage or memory may hold, and what storage holds
 		mem := J{}
 		disk := w.DiskIds()
@@ -245,7 +252,7 @@ func main() {
 		}
 		mu.Lock()
 		seq++
-		events = append(events, J{"ev": "final", "seq": seq, "disk": disk, "mem": mem})
+		events = append(events, J{"ev": "final", "seq": seq, "disk": disk, "mem": mem, "newlocs": newlocs})
 		mu.Unlock()
 		all = append(all, events...)
 	}
